@@ -25,10 +25,11 @@ Steps(c) ==
     [] c.ctx = "fields-strict" -> MeantFields(c.items, 1, MinusOne, FALSE)
     [] c.ctx = "fields-nonstrict" -> MeantFields(c.items, 1, MinusOne, TRUE)
     [] c.ctx \in {"const", "default", "list", "mapkey", "typedef-const"} -> << ConstStep(c.ty, LimbsOf(c.items[1].lit), TRUE) >>
+    [] c.ctx \in {"enum-const", "enum-default", "enum-list"} -> << EnumValueStep(LimbsOf(c.items[1].lit), FALSE) >>
     [] OTHER -> <<>>
 
 MustReject(c) == c.ctx \in {"dup-id", "dup-name", "dup-item", "dup-item-case", "self-const", "self-const-2", "self-service", "self-service-2", "dup-fn", "throws-typedef", "throws-struct", "throws-primitive", "oneway-result", "oneway-throws", "dup-param-id", "dup-param-name", "dup-throws-id", "union-required", "extends-struct", "extends-missing", "dup-type-name"}
-NumTy(c) == IF c.ctx = "enum" THEN "i32" ELSE IF c.ctx \in {"fields-strict", "fields-nonstrict"} THEN "i16" ELSE c.ty
+NumTy(c) == IF c.ctx \in {"enum", "enum-const", "enum-default", "enum-list"} THEN "i32" ELSE IF c.ctx \in {"fields-strict", "fields-nonstrict"} THEN "i16" ELSE c.ty
 
 Checks(e) ==
   LET st == Steps(e.c) IN
@@ -39,7 +40,10 @@ Checks(e) ==
     \* accepted => every compiled number is the number written (or implied) and fits its type
     <<"numbers-equal-source-and-in-range", (e.ok /\ ~MustReject(e.c)) =>
          /\ Len(e.nums) = Len(st)
-         /\ \A i \in 1..Len(st) : e.nums[i] = st[i].meant /\ Fits(NumTy(e.c), st[i].meant)>> }
+         /\ \A i \in 1..Len(st) : e.nums[i] = st[i].meant /\ Fits(NumTy(e.c), st[i].meant)>>,
+    \* an integer written where an enum value is expected names an item of exactly that value
+    <<"integer-for-an-enum-is-an-item-value", (e.ok /\ e.c.ctx \in {"enum-const", "enum-default", "enum-list"}) =>
+         LimbsOf(e.c.items[1].lit) \in EnumItemValues>> }
 
 Conf(e) ==
   LET st == Steps(e.c) IN
